@@ -250,6 +250,7 @@ class ParsersWorld:
             faulted = False
             settings_before = None
             ref_args = None
+            prefetched_x = None
             if kind == "new":
                 cur = {"ddl": op["ddl"], "flags": dict(op["flags"])}
                 prev_kw = None
@@ -279,7 +280,7 @@ class ParsersWorld:
                 except Exception as e:  # noqa
                     outcome = core.outcome_of_exception(e)
                 ref_args = (cur["ddl"], cur["flags"], {"output_mode": BAD_MODE})
-                expected = self.ref(*ref_args)
+                expected, prefetched_x = self._ref_pair(ref_args)
                 stats["refs"] += 1
                 st["kinds"].append("bad_mode")
             elif kind == "from_file":
@@ -305,7 +306,7 @@ class ParsersWorld:
                                              "expected": settings_before, "observed": core.canon(settings)})
                 if outcome is not None:
                     ref_args = (cur["ddl"], dict(cur["flags"], **(op.get("settings_extra") or {})), op["kw"])
-                    expected = self.ref(*ref_args)
+                    expected, prefetched_x = self._ref_pair(ref_args)
                     if expected and expected[0] == "ctor-exc":
                         expected = ["exc"] + list(expected[1:])      # through parse_from_file a constructor error is just an error
                     stats["refs"] += 1
@@ -373,7 +374,7 @@ class ParsersWorld:
                     faulted = True
                 if not faulted:
                     ref_args = (cur["ddl"], cur["flags"], ref_kw)
-                    expected = self.ref(*ref_args)
+                    expected, prefetched_x = self._ref_pair(ref_args)
                     stats["refs"] += 1
                     if faulted_before:
                         stats["after_fault_checks"] += 1
@@ -393,7 +394,7 @@ class ParsersWorld:
             # oracle 1b: a pristine process under ANOTHER hash seed returns an equal result (both sides are
             # pristine single-use processes, so a difference is attributable to the hash seed alone)
             if expected is not None and self.ref_x is not None and not st["violations"] and ref_args is not None:
-                expected_x = self.ref_x(*ref_args)
+                expected_x = prefetched_x if prefetched_x is not None else self.ref_x(*ref_args)
                 if expected_x and expected_x[0] == "ctor-exc" and expected[0] == "exc":
                     expected_x = ["exc"] + list(expected_x[1:])      # same normalisation as applied to `expected` above
                 stats["refs_other_hashseed"] += 1
@@ -427,6 +428,14 @@ class ParsersWorld:
                 log.add("global_state_changed", i=i, keys=ch[:8])
                 if self._victim_sweep(i, ch, trace, st, log):
                     break
+
+    def _ref_pair(self, ref_args):
+        """The same request to both pristine references at once (same hash seed; other hash seed and locale)."""
+        if self.ref_x is None:
+            return self.ref(*ref_args), None
+        t1 = self.ref.begin(*ref_args)
+        t2 = self.ref_x.begin(*ref_args)
+        return self.ref.finish(t1), self.ref_x.finish(t2)
 
     def _victim_sweep(self, i, ch, trace, st, log):
         """Op i changed process-global library state: run a seeded sample of corpus scripts on fresh objects in this
